@@ -48,6 +48,9 @@ type Behaviour struct {
 	// Code: BehError on the data-manager links fails with this gRPC status code (0 = a plain error), e.g. 1 = Canceled
 	// ("the client connection is closing"), 14 = Unavailable
 	Code int `json:"code,omitempty"`
+	// Times: n > 0 = only the first n calls to the node misbehave (a transient fault: a stale connection, a node that
+	// was restarting); 0 = every call
+	Times int `json:"times,omitempty"`
 }
 
 type nopGroup struct{}
@@ -99,7 +102,8 @@ type Cluster struct {
 	SearchCalls []*SearchCall
 	InfoCalls   []*InfoCall
 	// Beh[to] is the behaviour of links towards node index `to`
-	Beh map[uint64]Behaviour
+	Beh   map[uint64]Behaviour
+	calls map[uint64]int // calls made to a node so far (transient behaviours)
 }
 
 func NodeID(i int) uint64 { return uint64(7001 + 13*i) }
@@ -137,6 +141,12 @@ func New(nNodes int, dim int, metric int, placement [][]int, unreachable ...int)
 	un := map[int]bool{}
 	for _, u := range unreachable {
 		un[u] = true
+		// (the node has left the cluster: its peers hold no address for it either, so a client can not even be dialled)
+		for i, n := range c.Nodes {
+			if i != u {
+				n.Conn.RemoveNode(NodeID(u))
+			}
+		}
 	}
 	c.Wire(un)
 	return c
@@ -226,7 +236,17 @@ func (c *Cluster) MovePartition(node, p int, newNodes []int, viaSnapshot bool) e
 func (c *Cluster) behaviour(to uint64) Behaviour {
 	c.mu.Lock()
 	defer c.mu.Unlock()
-	return c.Beh[to]
+	b := c.Beh[to]
+	if b.Times > 0 {
+		if c.calls == nil {
+			c.calls = map[uint64]int{}
+		}
+		c.calls[to]++
+		if c.calls[to] > b.Times {
+			return Behaviour{}
+		}
+	}
+	return b
 }
 
 // ---- search shim ------------------------------------------------------------
